@@ -116,7 +116,9 @@ func (x *Exec) readField(st *State, key, valSort, ref string) Term {
 }
 
 // noteRead records that a reference read from the state was allocated before now.
-func (x *Exec) noteRead(st *State, t Term) {
+func (x *Exec) noteRead(st *State, t Term) { x.noteReadClk(st, t, st.clk) }
+
+func (x *Exec) noteReadClk(st *State, t Term, clk string) {
 	var r string
 	switch t.Sort {
 	case "Str":
@@ -135,12 +137,12 @@ func (x *Exec) noteRead(st *State, t Term) {
 	default:
 		return
 	}
-	k := "alloc@" + r + "@" + st.clk
+	k := "alloc@" + r + "@" + clk
 	if st.seenInst[k] {
 		return
 	}
 	st.seenInst[k] = true
-	st.assume(fmt.Sprintf("(< (alloc %s) %s)", r, st.clk))
+	st.assume(fmt.Sprintf("(< (alloc %s) %s)", r, clk))
 	if t.Sort == "Slice" {
 		st.assume(fmt.Sprintf("(and (<= 0 (s_off %s)) (<= 0 (s_len %s)) (<= (s_len %s) (s_cap %s)) (<= (+ (s_off %s) (s_cap %s)) MaxInt))", t.S, t.S, t.S, t.S, t.S, t.S))
 	}
